@@ -1,0 +1,63 @@
+// Copyright 2025 CloudWeGo Authors
+//
+// Licensed under the Apache License, Version 2.0 (the "License");
+// you may not use this file except in compliance with the License.
+// You may obtain a copy of the License at
+//
+//   http://www.apache.org/licenses/LICENSE-2.0
+//
+// Unless required by applicable law or agreed to in writing, software
+// distributed under the License is distributed on an "AS IS" BASIS,
+// WITHOUT WARRANTIES OR CONDITIONS OF ANY KIND, either express or implied.
+// See the License for the specific language governing permissions and
+// limitations under the License.
+
+//go:build verif
+
+package plugin
+
+import "github.com/cloudwego/thriftgo/parser"
+
+// This file only exists under the build tag "verif". It exports, unchanged, the
+// unexported helpers of the include compression and of the data trailer so that an
+// external verification harness can drive them (include compression is otherwise only
+// switched on for plugins whose build info reports a released thriftgo >= v0.4.2).
+
+// VerifFeatureCompressInclude is featureCompressInclude.
+const VerifFeatureCompressInclude = featureCompressInclude
+
+// VerifPluginDataTrailer is pluginDataTrailer.
+const VerifPluginDataTrailer = pluginDataTrailer
+
+// VerifRefFilenamePrefix is refFilenamePrefix.
+const VerifRefFilenamePrefix = refFilenamePrefix
+
+// VerifCompressThriftInclude is compressThriftInclude.
+func VerifCompressThriftInclude(p *parser.Thrift, m map[string]*parser.Thrift) {
+	compressThriftInclude(p, m)
+}
+
+// VerifDecompressThriftInclude is decompressThriftInclude.
+func VerifDecompressThriftInclude(p *parser.Thrift, m map[string]*parser.Thrift) {
+	decompressThriftInclude(p, m)
+}
+
+// VerifAppendDataTrailer is appendDataTrailer.
+func VerifAppendDataTrailer(data []byte, feature uint8) []byte {
+	return appendDataTrailer(data, feature)
+}
+
+// VerifHasDataTrailerFeature is hasDataTrailerFeature.
+func VerifHasDataTrailerFeature(data []byte, feature uint8) bool {
+	return hasDataTrailerFeature(data, feature)
+}
+
+// VerifSupportDataTrailer is supportDataTrailer.
+func VerifSupportDataTrailer(version string) bool { return supportDataTrailer(version) }
+
+// VerifSetEnableCompressThriftInclude sets enableCompressThriftInclude and returns the old value.
+func VerifSetEnableCompressThriftInclude(on bool) (old bool) {
+	old = enableCompressThriftInclude
+	enableCompressThriftInclude = on
+	return old
+}
